@@ -266,21 +266,39 @@ def R4_never_an_answer(ctx):
     ctx.check(len(calls) >= 2, "single-via:two-searches", "expected forward and reverse underlying searches, found %d" % len(calls), sb.where())
 
 
+def R4b_errors_unchanged(ctx):
+    """C10.R4b the termination error reaches the caller unchanged through the search stack"""
+    F = ctx.F
+    ctx.rule("C10.R4b", "every call of a search entry point inside the search stack hands its Err on unchanged (`?`, return, or a map_err that keeps the source error)", floor=8)
+    entry = re.compile(r"(a_star_algorithm::run_a_star(_edge_oriented)?|search_algorithm::SearchAlgorithm::run_(vertex|edge)_oriented|search_algorithm::run_edge_oriented|yens_algorithm::run|single_via_paths_algorithm::run)$")
+    for b in F.local_bodies():
+        if not (b.path.startswith("routee_compass_core::algorithm::search::") or b.path.startswith("routee_compass::app::search::search_app::SearchApp::run")):
+            continue
+        tm = Terms(b, keep_transparent=False)
+        for c in b.calls():
+            if not (c.callee and entry.search(c.callee)):
+                continue
+            inst = "%s->%s" % (b.path.split("::")[-1] if b.kind != "closure" else b.path.split("::")[-2] + "::closure", c.callee.split("::")[-1])
+            ef = error_flow(F, b, c, tm)
+            ok, detail = ef["ok"], ef["detail"]
+            ctx.check(ok, inst, "the Err of %s is not handed on unchanged (%s): a termination error can be swallowed or replaced" % (c.callee.split("::")[-1], detail), c.where(), detail=detail)
+
+
 def R5_builder(ctx):
     """C10.R5 builder maps type strings to variants"""
     F = ctx.F
-    ctx.rule("C10.R5", "TerminationModelBuilder::assemble/build maps the four type strings to the four variants", floor=4)
+    ctx.rule("C10.R5", "TerminationModelBuilder::build maps the four type strings to the four variants and passes the configured limit/frequency/models through unmodified", floor=9)
     bs = [b for p, b in F.bodies.items() if "termination_model_builder::TerminationModelBuilder" in p and b.kind == "assocfn"]
     if not bs:
         raise AnchorMissing("TerminationModelBuilder")
     want = {"query_runtime": "QueryRuntimeLimit", "solution_size": "SolutionSizeLimit", "iterations": "IterationsLimit", "combined": "Combined"}
     found = {}
+    fields = {}
     for b in bs:
         tm = Terms(b)
         for p in enumerate_paths(b, max_paths=50000):
             if p.end != "return":
                 continue
-            # string comparisons along the path that are true
             lits = []
             for dt, lab, bb in p.conds:
                 d = nosite(deep_strip(dt))
@@ -295,9 +313,19 @@ def R5_builder(ctx):
                         for k in want:
                             if k in l:
                                 found.setdefault(k, set()).add(s[2])
+                                fields.setdefault(s[2], []).append(dict(s[3]))
     for k, v in want.items():
         got = found.get(k, set())
         ctx.check(got == {v}, "builder:%s" % k, "type string %r builds %s, expected %s" % (k, sorted(got), v), bs[0].where(), detail=v)
+    # the limits are the configured values, unmodified
+    keys = {("IterationsLimit", "limit"): "limit", ("SolutionSizeLimit", "limit"): "limit", ("QueryRuntimeLimit", "limit"): "limit", ("QueryRuntimeLimit", "frequency"): "frequency", ("Combined", "models"): "models"}
+    for (var, fld), key in keys.items():
+        for f in fields.get(var, [])[:1]:
+            t = f.get(fld)
+            arith = [x for x in subterms(t) if x[0] == "bin" and x[1] not in ("Eq", "Ne", "Lt", "Le", "Gt", "Ge")] + [x for x in subterms(t) if x[0] == "call" and re.search(r"std::ops::(Add|Sub|Mul|Div|Rem)|saturating_|wrapping_|checked_", x[1])]
+            lits = [x[2] for x in subterms(t) if x[0] == "const" and isinstance(x[2], str)]
+            ok = not arith and any(key in l for l in lits)
+            ctx.check(ok, "builder-field:%s.%s" % (var, fld), "the %s of %s is not the configured `%s` value unmodified: %s" % (fld, var, key, short(t)[:200]), bs[0].where(), detail=short(t)[:120])
 
 
-RULES = [R1_test_first, R2_counters, R3_predicates, R4_never_an_answer, R5_builder]
+RULES = [R1_test_first, R2_counters, R3_predicates, R4_never_an_answer, R4b_errors_unchanged, R5_builder]
